@@ -214,6 +214,16 @@ CHECKS = {
         design_ref="6.5",
         note=LEVEL_NOTE_COMMON + " The ownership theorem is instantiated for the low-memory update kernel only (new_build_candidates and the high-memory variant: correspondence + repetition); the schedule quantifier relies on the stated interleaving model of prange; independence is between query() calls, not between rows of one batch.",
     ),
+    "C03": dict(
+        technique="Coq proof of the exactness clause (one leaf listing every point => after init_rp_tree every row is exact up to distance ties, all sizes, all symmetric finite distance tables) + exact comparison of real single-leaf builds with brute force; the recall floors are statistical and are MEASURED (tie-aware recall against float64 brute force over seeded data families x metrics x build modes), not proved",
+        text=("Theorem C03_single_leaf_exact (coq/props/C03.v), built on the top-k refinement of the heap (C11) and the graph invariant (C01). "
+              "Every run: datasets that fit one leaf (gauss / lattice / duplicates / CSR x 6 metrics x low_memory x n_jobs x n_trees) are built "
+              "with the real index and every row is compared with the distance table computed by the index's own compiled metric; recall@10 "
+              "of neighbor_graph (before and after a query) and of query() is measured for uniform, gaussian, clustered, manifold, sparse and "
+              "binary families, including a size that is an exact multiple of the 16384-vertex update block, and compared with 0.90 / 0.80."),
+        design_ref="6.3",
+        note=LEVEL_NOTE_COMMON + " PARTIAL: only the single-leaf clause is a theorem (and only up to init_rp_tree; later rounds are covered by C13/C01 and validated, not composed). The 0.90/0.80 floors are measurements on seeded families: a statement 'on average over well-conditioned data' cannot be stated as a theorem about the model; a measured value below the floor is reported as a violation with the configuration as replay.",
+    ),
 }
 
 REASON_PENDING = "check not built yet in this round (design in DESIGN.md section 6; no claim is made until the check exists)"
